@@ -82,6 +82,11 @@ func eval(c Case, bs []func() *progen.Program) (fs []ev.Finding, note string) {
 		}
 	}
 	var origSrc, newSrc string
+	if pre := progen.PreEdit(c.Kind); pre != "" {
+		if !progen.ApplyEdit(orig, pre, c.Site) || !progen.ApplyEdit(edited, pre, c.Site) {
+			return nil, "no-site"
+		}
+	}
 	origSrc = whole(orig)
 	switch c.Kind {
 	case "reformat":
